@@ -118,9 +118,19 @@ func expect(cs *caseSpec) expectation {
 			e.label = logLabel(how)
 		case isCacheExit(how):
 			e.label = cacheLabel(cs.cfg.CacheLoc)
+		case how == ExitStdinEOF:
+			e.label = "exit at the end of the standard input"
 		default:
 			e.label = "normal exit by Ctrl+D"
 		}
+	}
+	switch cs.cfg.Stdin {
+	case StdinDevNull:
+		e.label += " (standard input /dev/null)"
+	case StdinPipe:
+		e.label += " (standard input a pipe)"
+	case StdinFile:
+		e.label += " (standard input a regular file)"
 	}
 	return e
 }
